@@ -89,6 +89,12 @@ structure Facts11 where
   wsdlQuery : WsdlQueryRule
   /-- only a request whose verb upper-cases to 'GET' can be a WSDL request -/
   wsdlGetOnly : Bool
+  /-- `process_method` prefixes the routing key of a member method with 'Type.' unless its message name already starts with it -/
+  memberKeyPrefixed : Bool
+  /-- `ServiceMeta` refuses a service definition with both primary and auxiliary methods -/
+  mixedAuxRefused : Bool
+  /-- a dict document must have exactly one key (the method name); otherwise a client fault, nothing runs -/
+  docSingleKey : Bool
 
 /-! ## Declarations as written by the user, and what the decorator makes of them -/
 
@@ -104,12 +110,27 @@ structure MethodDecl where
   keySuffix : Text := []            -- `_internal_key_suffix`
   /-- raw `HttpPattern` data: (verb alternatives, address) -/
   patterns : List (Option (List Text) × Text) := []
+  /-- `_aux=` on the method itself -/
+  auxOwn : Bool := false
+  /-- `_body_style='bare'` (or `_soap_body_style='rpc'`) -/
+  bare : Bool := false
+  /-- bare with one primitive argument: the in-message is a customised primitive, not a generated class -/
+  bareArg : Bool := false
   deriving Repr, DecidableEq
 
 structure ServiceDecl where
   modName : Text                    -- `__module__`
   svcName : Text                    -- `__service_name__` or `__name__`
   aux : Bool                        -- `__aux__ is not None`
+  methods : List MethodDecl
+  /-- `__service_module__` (used by the internal key only) -/
+  keyMod : Option Text := none
+  deriving Repr, DecidableEq
+
+/-- a ComplexModel class with `@mrpc` member methods, reachable from the interface -/
+structure ClassDecl where
+  typeName : Text                   -- `get_type_name()`
+  ns : Option Text                  -- explicit `__namespace__` (`none`: resolved to the application's tns)
   methods : List MethodDecl
   deriving Repr, DecidableEq
 
@@ -120,8 +141,17 @@ structure Method where
   svcName : Text
   func : Text
   keySuffix : Text
-  /-- `MethodDescriptor.name`: type name of the in-message -/
+  /-- local part of the routing key (`process_method`'s method_key without '{tns}'): `MethodDescriptor.name`
+      for service methods; for member methods whose name does not start with 'Type.', 'Type.' + name -/
   name : Text
+  /-- `MethodDescriptor.name`: type name of the in-message -/
+  msgName : Text
+  /-- `@mrpc` member method of a ComplexModel class (`svcMod` = the class' namespace, `svcName` = its type name) -/
+  member : Bool
+  /-- the in-message is a generated class that occupies a key of `Interface.classes` -/
+  inKeyed : Bool
+  /-- module part of the internal key (`get_service_module()`) -/
+  keyMod : Text
   /-- explicit namespace of the in-message (`none`: the application's tns) -/
   inNs : Option Text
   outName : Text
@@ -138,6 +168,7 @@ def splitBrace (s : Text) : Option Text × Text :=
 
 inductive DeclErr where
   | valueError      -- both `_operation_name` and `_in_message_name` given
+  | mixedAux        -- service.py:94: primary and auxiliary methods in one service definition (`Exception`)
   deriving Repr, DecidableEq
 
 /-- decorator.py:437-453 -/
@@ -159,13 +190,55 @@ def resolveMethod (F : Facts11) (s : ServiceDecl) (d : MethodDecl) : Except Decl
   | .ok (inNs, name) =>
     let (outNs, outName) := resolveOut F d
     .ok { fid := d.fid, svcMod := s.modName, svcName := s.svcName, func := d.func, keySuffix := d.keySuffix,
-          name := name, inNs := inNs, outName := outName, outNs := outNs, aux := s.aux, patterns := d.patterns }
+          name := name, msgName := name, member := false, inKeyed := !(d.bare && d.bareArg),
+          keyMod := s.keyMod.getD s.modName,
+          inNs := inNs, outName := outName, outNs := outNs, aux := s.aux || d.auxOwn, patterns := d.patterns }
 
-def resolveMethods (F : Facts11) (s : ServiceDecl) : List MethodDecl → Except DeclErr (List Method)
+def resolveMethodsGo (F : Facts11) (s : ServiceDecl) : List MethodDecl → Except DeclErr (List Method)
   | [] => .ok []
   | d :: ds =>
-    match resolveMethod F s d, resolveMethods F s ds with
+    match resolveMethod F s d, resolveMethodsGo F s ds with
     | .ok m, .ok ms => .ok (m :: ms)
+    | .error e, _ => .error e
+    | _, .error e => .error e
+
+/-- `ServiceMeta.__init__`: decorate every method; a definition that has both primary and auxiliary methods
+    is refused -/
+def resolveMethods (F : Facts11) (s : ServiceDecl) (ds : List MethodDecl) : Except DeclErr (List Method) :=
+  match resolveMethodsGo F s ds with
+  | .error e => .error e
+  | .ok ms => if F.mixedAuxRefused && ms.any (·.aux) && ms.any (fun m => !m.aux) then .error .mixedAux else .ok ms
+
+/-- text before the first '.' (`name.split('.', 1)[0]`) -/
+def firstSeg (s : Text) : Text := s.takeWhile (· ≠ '.')
+
+/-- `@mrpc` on a method of ComplexModel class `c` (decorator.py with `_no_self=False`): the default
+    in-message name is 'Type.function', the out-message name is prefixed likewise, an `_operation_name`
+    can never be combined with it; `process_method` prefixes the routing key with the type name when the
+    message name does not start with it -/
+def resolveMember (F : Facts11) (tns : Text) (c : ClassDecl) (d : MethodDecl) : Except DeclErr Method :=
+  if d.opName.isSome ∧ d.opName ≠ some d.func then .error .valueError
+  else
+    let (inNs, msg) := splitBrace (d.inMsg.getD (c.typeName ++ '.' :: d.func))
+    let (outNs, outName) := splitBrace (c.typeName ++ '.' :: d.outMsg.getD (d.func ++ F.responseSuffix))
+    .ok { fid := d.fid, svcMod := c.ns.getD tns, svcName := c.typeName, func := d.func, keySuffix := d.keySuffix,
+          name := if firstSeg msg = c.typeName || !F.memberKeyPrefixed then msg else c.typeName ++ '.' :: msg,
+          msgName := msg, member := true, inKeyed := true, keyMod := c.ns.getD tns,
+          inNs := inNs, outName := outName, outNs := outNs, aux := false, patterns := d.patterns }
+
+def resolveMembers (F : Facts11) (tns : Text) (c : ClassDecl) : List MethodDecl → Except DeclErr (List Method)
+  | [] => .ok []
+  | d :: ds =>
+    match resolveMember F tns c d, resolveMembers F tns c ds with
+    | .ok m, .ok ms => .ok (m :: ms)
+    | .error e, _ => .error e
+    | _, .error e => .error e
+
+def resolveClasses (F : Facts11) (tns : Text) : List ClassDecl → Except DeclErr (List Method)
+  | [] => .ok []
+  | c :: cs =>
+    match resolveMembers F tns c c.methods, resolveClasses F tns cs with
+    | .ok ms, .ok rest => .ok (ms ++ rest)
     | .error e, _ => .error e
     | _, .error e => .error e
 
@@ -179,15 +252,27 @@ def resolveAll (F : Facts11) : List ServiceDecl → Except DeclErr (List Method)
     | .error e, _ => .error e
     | _, .error e => .error e
 
+/-- the descriptors `populate_interface` routes: service methods first, then the member methods of the
+    classes found in the interface -/
+def resolveApp (F : Facts11) (tns : Text) (ss : List ServiceDecl) (cs : List ClassDecl) :
+    Except DeclErr (List Method) :=
+  match resolveAll F ss, resolveClasses F tns cs with
+  | .ok ms, .ok mem => .ok (ms ++ mem)
+  | .error e, _ => .error e
+  | _, .error e => .error e
+
 /-! ## Keys -/
 
 /-- `MethodDescriptor.internal_key`: '{module.Service}function' + suffix -/
 def internalKey (m : Method) : Text :=
-  '{' :: m.svcMod ++ '.' :: m.svcName ++ '}' :: m.func ++ m.keySuffix
+  '{' :: m.keyMod ++ '.' :: m.svcName ++ '}' :: m.func ++ m.keySuffix
 
-/-- `MethodDescriptor.gen_interface_key(service)`: 'module.Service.publicname' -/
+/-- `MethodDescriptor.gen_interface_key(cls)`: 'module.Service.messagename' for a service method;
+    'namespace.Type.messagename' for a member method, without the 'Type.' when the message name already
+    starts with it -/
 def ifaceKey (m : Method) : Text :=
-  m.svcMod ++ '.' :: m.svcName ++ '.' :: m.name
+  if m.member ∧ firstSeg m.msgName = m.svcName then m.svcMod ++ '.' :: m.msgName
+  else m.svcMod ++ '.' :: m.svcName ++ '.' :: m.msgName
 
 /-- '{ns}name' -/
 def qname (ns name : Text) : Text := '{' :: ns ++ '}' :: name
@@ -197,7 +282,7 @@ def routeKey (tns : Text) (m : Method) : Text := qname tns m.name
 
 /-- class keys the two messages of a primary method occupy in `Interface.classes` -/
 def classKeys (tns : Text) (m : Method) : List Text :=
-  [qname (m.inNs.getD tns) m.name, qname (m.outNs.getD tns) m.outName]
+  (if m.inKeyed then [qname (m.inNs.getD tns) m.msgName] else []) ++ [qname (m.outNs.getD tns) m.outName]
 
 /-! ## Application construction -/
 
@@ -211,22 +296,25 @@ inductive BuildErr where
 def checkUnique : List Text → List Method → Except BuildErr Unit
   | _, [] => .ok ()
   | seen, m :: ms =>
-    if internalKey m ∈ seen then .error .methodAlreadyExists
+    if m.member then checkUnique seen ms      -- only `s.public_methods` of the listed services are checked
+    else if internalKey m ∈ seen then .error .methodAlreadyExists
     else checkUnique (internalKey m :: seen) ms
 
 /-- first loop of `populate_interface`: `add_method` yields the in- and out-message of every
     *primary* method, `add_class`/`has_class` raise ValueError when two different generated
     message classes want the same '{ns}name' -/
+def addKeys : List Text → List Text → Option (List Text)
+  | seen, [] => some seen
+  | seen, k :: ks => if k ∈ seen then none else addKeys (k :: seen) ks
+
 def addClasses (tns : Text) : List Text → List Method → Except BuildErr (List Text)
   | seen, [] => .ok seen
   | seen, m :: ms =>
     if m.aux then addClasses tns seen ms
     else
-      let ki := qname (m.inNs.getD tns) m.name
-      let ko := qname (m.outNs.getD tns) m.outName
-      if ki ∈ seen then .error .valueError
-      else if ko ∈ ki :: seen then .error .valueError
-      else addClasses tns (ko :: ki :: seen) ms
+      match addKeys seen (classKeys tns m) with
+      | none => .error .valueError
+      | some seen' => addClasses tns seen' ms
 
 /-- `Interface.service_method_map` as an insertion-ordered association list -/
 abbrev Routes := List (Text × List Method)
@@ -363,17 +451,23 @@ instance (a b : Method) : Decidable (Clash a b) := by unfold Clash; exact inferI
 
 /-- a service list spyne must accept; every clause is independent of the listing order -/
 structure Valid (tns : Text) (ms : List Method) : Prop where
-  ikeys : (ms.map internalKey).Nodup
+  ikeys : ((ms.filter (fun m => !m.member)).map internalKey).Nodup
   classes : (allClassKeys tns ms).Nodup
   ifaces : (ms.map ifaceKey).Nodup
   noClash : ms.Pairwise (fun a b => ¬ Clash a b)
 
 /-! ## sample descriptors for the non-vacuity examples of Props/C11.lean -/
 namespace Sample
-def mA : Method := ⟨1, "m".toList, "A".toList, "foo".toList, [], "foo".toList, none, "fooResponse".toList, none, false, []⟩
-def mB : Method := ⟨2, "m".toList, "A".toList, "Foo".toList, [], "Foo".toList, none, "FooResponse".toList, none, false, []⟩
-def mX : Method := ⟨3, "m".toList, "X".toList, "foo".toList, [], "foo".toList, none, "fooResponse".toList, none, true, []⟩
-def mC : Method := ⟨4, "m".toList, "C".toList, "bar".toList, [], "foo".toList, some "other".toList, "barResponse".toList, none, false, []⟩
+def mk (fid : Nat) (svc func name : String) (aux : Bool) (inNs : Option String := none) : Method :=
+  { fid := fid, svcMod := "m".toList, svcName := svc.toList, func := func.toList, keySuffix := [],
+    name := name.toList, msgName := name.toList, member := false, inKeyed := true, keyMod := "m".toList,
+    inNs := inNs.map (·.toList), outName := (func ++ "Response").toList, outNs := none, aux := aux, patterns := [] }
+def mA : Method := mk 1 "A" "foo" "foo" false
+def mB : Method := mk 2 "A" "Foo" "Foo" false
+def mX : Method := mk 3 "X" "foo" "foo" true
+def mC : Method := mk 4 "C" "bar" "foo" false (some "other")
+/-- `@mrpc` member `rename` of class `Doc`, and one with `_in_message_name='doit'` -/
+def docDecl : ClassDecl := ⟨"Doc".toList, none, [{ fid := 5, func := "rename".toList }, { fid := 6, func := "other".toList, inMsg := some "doit".toList }]⟩
 end Sample
 
 end SpyneModel.Dispatch
